@@ -87,6 +87,14 @@ def gen_states(r, card, mode, allow_negative=False):
     """State names for one variable.  None = leave pgmpy's default (0..card-1)."""
     if mode == "default":
         return None
+    if card > 5:
+        # generated names for large cardinalities
+        if mode in ("str", "mixed"):
+            return ["s%d" % i for i in r.sample(range(card * 2), card)]
+        if mode in ("int", "int_sorted"):
+            xs = r.sample(range(card * 3), card)
+            return sorted(xs) if mode == "int_sorted" else xs
+        return None
     if mode == "str":
         pool = ["yes", "no", "low", "mid", "high", "s0", "s1", "s2", "s3", "on", "off", "a", "b", "c", "d", "T", "F"]
         return r.sample(pool, card)
@@ -143,7 +151,7 @@ def gen_table(r, card, pcards, **kw):
 # --------------------------------------------------------------------------------------------------
 def gen_bn(streams, max_n=6, min_n=1, max_card=4, max_parents=3, max_joint=4096, label_mode=None,
            state_modes=None, connected=False, allow_card1=True, keyword_rate=0.0, tiny_rate=None,
-           max_table=None, force_str_labels=False, positive=False):
+           max_table=None, force_str_labels=False, positive=False, big_card_rate=0.0):
     r = streams.s("world")
     n = r.randint(min_n, max_n)
     density = r.choice([0.15, 0.3, 0.5, 0.8])
@@ -167,6 +175,9 @@ def gen_bn(streams, max_n=6, min_n=1, max_card=4, max_parents=3, max_joint=4096,
             card.append(c0)
         else:
             card.append(r.randint(2, max_card))
+    if big_card_rate and r.random() < big_card_rate:
+        # a two-digit cardinality next to one-digit ones (formats that sort or print cardinalities as text)
+        card[r.randrange(n)] = r.choice([10, 11, 12])
     # keep the joint small
     while _prod(card) > max_joint:
         i = max(range(n), key=lambda k: card[k])
@@ -374,22 +385,34 @@ def descendants(world, vs):
 # Markov-network worlds (factors over logical variables)
 # --------------------------------------------------------------------------------------------------
 def gen_mn(streams, max_n=6, min_n=2, max_card=3, max_joint=4096, connected=True, dup_rate=0.0,
-           label_mode=None, state_named=None):
+           label_mode=None, state_named=None, big_card_rate=0.0):
     r = streams.s("world")
     n = r.randint(min_n, max_n)
-    card = [r.randint(1 if r.random() < 0.08 else 2, max_card) for _ in range(n)]
+    ring = n >= 5 and r.random() < 0.3
+    card = [r.randint(1 if r.random() < 0.08 else 2, max_card if not ring else 2) for _ in range(n)]
+    if big_card_rate and r.random() < big_card_rate:
+        card[r.randrange(n)] = r.choice([10, 11, 12])
     while _prod(card) > max_joint:
         i = max(range(n), key=lambda k: card[k])
         card[i] -= 1
     density = r.choice([0.2, 0.4, 0.7])
     edges = []
     order = shuffled(r, range(n))
-    if connected:
-        for i in range(1, n):
-            edges.append((order[r.randrange(i)], order[i]))
-    for a, b in itertools.combinations(range(n), 2):
-        if r.random() < density and (a, b) not in edges and (b, a) not in edges:
-            edges.append((a, b))
+    if ring:
+        # a long chordless cycle (plus at most one chord): triangulation has to cascade fill-in edges
+        for i in range(n):
+            edges.append((order[i], order[(i + 1) % n]))
+        if r.random() < 0.3:
+            a, b = order[0], order[n // 2]
+            if (a, b) not in edges and (b, a) not in edges:
+                edges.append((a, b))
+    else:
+        if connected:
+            for i in range(1, n):
+                edges.append((order[r.randrange(i)], order[i]))
+        for a, b in itertools.combinations(range(n), 2):
+            if r.random() < density and (a, b) not in edges and (b, a) not in edges:
+                edges.append((a, b))
     zero_rate = r.choice([0.0, 0.0, 0.1])
     factors = []
 
@@ -422,6 +445,10 @@ def gen_mn(streams, max_n=6, min_n=2, max_card=3, max_joint=4096, connected=True
     for v in range(n):
         if r.random() < 0.3 or not any(v in f["scope"] for f in factors):
             factors.append(rand_factor([v]))
+    # a second, different factor over an already used scope (e.g. a prior and a soft-evidence factor on one variable)
+    if r.random() < 0.3 and factors:
+        for f in r.sample(factors, min(len(factors), r.randint(1, 2))):
+            factors.append(rand_factor(shuffled(r, f["scope"])))
     # repeated equal factors
     if dup_rate:
         for f in list(factors):
@@ -439,7 +466,7 @@ def gen_mn(streams, max_n=6, min_n=2, max_card=3, max_joint=4096, connected=True
         states.append(gen_states(rl, card[v], smode) if state_named else None)
     return {"kind": "mn", "n": n, "card": card, "edges": [list(e) for e in edges], "factors": factors,
             "labels": labels, "states": states,
-            "flags": {"style": style, "density": density, "label_mode": label_mode, "state_named": state_named}}
+            "flags": {"style": style, "density": density, "label_mode": label_mode, "state_named": state_named, "ring": ring}}
 
 
 def mn_connected(world):
